@@ -1227,7 +1227,8 @@ def layered(ctx, quick, ticket_less, cas_retry, only=None):
         st["per_scenario"][scn] = st["per_scenario"].get(scn, 0) + 1
         st["ends"][end.split(":")[0]] = st["ends"].get(end.split(":")[0], 0) + 1
         st["events"] += len(evs)
-        for (key, what) in judge_layered(scn, n, end, evs, final):
+        verdicts = judge_layered(scn, n, end, evs, final)
+        for (key, what) in (verdicts[:1] if scn.startswith("pmutex") else verdicts):      # one replay file per request: the first verdict
             st["contract_failures"] += 1
             if (key == K_CAS and cas_retry) or (key == K_TICKET and ticket_less):
                 key = None          # the tree has the repair: this is not the old, known class
